@@ -258,6 +258,11 @@ pub struct SharedSink {
 	pub schedule: Vec<usize>,
 	pub idx: usize,
 	pub native_vectored: bool,
+	/// write-call indices (write and write_vectored counted together) at which the sink refuses: a hard error
+	/// without accepting a single byte; later calls work again
+	pub refuse_at: Vec<u64>,
+	pub calls: u64,
+	pub refusals: std::rc::Rc<std::cell::Cell<u64>>,
 }
 impl SharedSink {
 	pub fn scheduled(schedule: Vec<usize>, native_vectored: bool) -> Self {
@@ -266,7 +271,25 @@ impl SharedSink {
 			schedule,
 			idx: 0,
 			native_vectored,
+			..Default::default()
 		}
+	}
+	/// accepts everything it is offered in one call (also across slices), except at the given call indices
+	pub fn refusing(refuse_at: Vec<u64>) -> Self {
+		SharedSink {
+			native_vectored: true,
+			refuse_at,
+			..Default::default()
+		}
+	}
+	fn refuse(&mut self) -> bool {
+		let c = self.calls;
+		self.calls += 1;
+		if self.refuse_at.contains(&c) {
+			self.refusals.set(self.refusals.get() + 1);
+			return true;
+		}
+		false
 	}
 	fn quota(&mut self) -> usize {
 		if self.schedule.is_empty() {
@@ -282,6 +305,9 @@ impl Write for SharedSink {
 		if buf.is_empty() {
 			return Ok(0);
 		}
+		if self.refuse() {
+			return Err(io::Error::new(io::ErrorKind::Other, "injected sink refusal"));
+		}
 		let n = self.quota().min(buf.len());
 		self.buf.borrow_mut().extend_from_slice(&buf[..n]);
 		Ok(n)
@@ -294,6 +320,9 @@ impl Write for SharedSink {
 		let total: usize = bufs.iter().map(|b| b.len()).sum();
 		if total == 0 {
 			return Ok(0);
+		}
+		if self.refuse() {
+			return Err(io::Error::new(io::ErrorKind::Other, "injected sink refusal"));
 		}
 		let n = self.quota().min(total);
 		let mut left = n;
